@@ -404,6 +404,42 @@ func init() {
 			body := n.evalBool(args[2])
 			return Scalar{Forall([]*Term{h}, Implies(Neq(UF("tid", SInt, h), Int(0)), body))}
 		},
+		// elemh(s, i): the identity (handle) of element i of a slice of non-scalar elements
+		"elemh": func(e *Env, args []ast.Expr) Value {
+			sl, ok := e.eval(args[0]).(Slice)
+			if !ok {
+				fail("spec: elemh(slice, i)")
+			}
+			i := e.toTerm(e.eval(args[1]))
+			if isNilConst(sl) {
+				return Scalar{UF("nilindex", SInt, i)}
+			}
+			sl = e.st.canon(sl).(Slice)
+			a, ok := e.st.arrayCell(sl.Back, sl.Elem)
+			if !ok {
+				fail("spec: elemh: no backing array")
+			}
+			sq, err := e.st.toSeq(a)
+			if err != nil {
+				fail("spec: elemh: %v", err)
+			}
+			return Scalar{SeqNth(sq, Add(sl.Off, i))}
+		},
+		// localor("name", default): the source-level local variable if it is in scope on this path
+		"localor": func(e *Env, args []ast.Expr) Value {
+			nv, ok := e.eval(args[0]).(Scalar)
+			if !ok || !nv.T.IsStr() || e.fr == nil {
+				fail("spec: localor(\"name\", default)")
+			}
+			if v, ok := e.fr.env[nv.T.S]; ok && !e.noLocals {
+				if e.fr.envAddr[nv.T.S] {
+					p := v.(Ptr)
+					return e.fr.load(e.st, p, p.Elem)
+				}
+				return v
+			}
+			return e.eval(args[1])
+		},
 		"lower": func(e *Env, args []ast.Expr) Value { return Scalar{strLower(e.st.norm(e.toTerm(e.eval(args[0]))))} },
 		"chancap": func(e *Env, args []ast.Expr) Value {
 			c, ok := e.eval(args[0]).(Chan)
